@@ -30,6 +30,10 @@ pub enum OpKind {
     Relu,
     Sigmoid,
     Softmax,
+    /// the closures of `corgi::activation` (they take their argument by value: the operand handle is consumed)
+    ActRelu,
+    ActSigmoid,
+    ActSoftmax,
     /// custom operations through `Array::op` with harness closures (same-shape operands)
     CAdd,
     CMul,
@@ -76,6 +80,9 @@ impl OpKind {
             Relu => "relu",
             Sigmoid => "sigmoid",
             Softmax => "softmax",
+            ActRelu => "activation::relu",
+            ActSigmoid => "activation::sigmoid",
+            ActSoftmax => "activation::softmax",
             CAdd => "custom_add",
             CMul => "custom_mul",
             CScale(_) => "custom_scale",
@@ -86,7 +93,7 @@ impl OpKind {
     pub fn is_exact(&self) -> bool {
         use OpKind::*;
         match self {
-            Add | Sub | Mul | Neg | Sum(_) | Reshape(_) | Matmul { .. } | Conv { .. } | Relu | CAdd | CMul | CFused3 => true,
+            Add | Sub | Mul | Neg | Sum(_) | Reshape(_) | Matmul { .. } | Conv { .. } | Relu | ActRelu | CAdd | CMul | CFused3 => true,
             ScaleR(k) | ScaleL(k) | Axpy(k) | CScale(k) => is_dyadic(*k),
             Powf(e) => *e == 1.0 || *e == 2.0 || *e == 3.0,
             _ => false,
@@ -94,7 +101,11 @@ impl OpKind {
     }
     pub fn is_nonlinear(&self) -> bool {
         use OpKind::*;
-        matches!(self, Mul | Div | Powf(_) | Ln | Exp | Recip | Matmul { .. } | Conv { .. } | Relu | Sigmoid | Softmax | CMul | CFused3)
+        matches!(self, Mul | Div | Powf(_) | Ln | Exp | Recip | Matmul { .. } | Conv { .. } | Relu | Sigmoid | Softmax | ActRelu | ActSigmoid | ActSoftmax | CMul | CFused3)
+    }
+    /// operations that take their (single) operand by value
+    pub fn consumes_operand(&self) -> bool {
+        matches!(self, OpKind::ActRelu | OpKind::ActSigmoid | OpKind::ActSoftmax)
     }
     pub fn is_custom(&self) -> bool {
         use OpKind::*;
